@@ -110,6 +110,10 @@ class Run:
     def finish(self, replay_fn=None):
         """Confirm, classify and print violations; write evidence; return exit code."""
         known = load_known()
+        d = os.path.join(REPLAY_DIR, self.pid)
+        if os.path.isdir(d):          # artefacts of earlier runs are stale
+            for f in os.listdir(d):
+                os.unlink(os.path.join(d, f))
         reported = 0
         n_new = 0
         n_known = 0
